@@ -105,6 +105,9 @@ Open(x) ==   \* try: archived(True) except ValueError: pass; self.archive = x
   LET r == ArchivedOn(arch, swap)
       s == SetArchive(r.arch, r.swap, x)
   IN /\ arch' = s.arch /\ swap' = s.swap /\ UNCHANGED <<mem, archs>> /\ Finish(Ok("open", [x |-> x]))
+Assign(x) ==   \* self.archive = x, the bare property setter (x = 0: a null archive)
+  LET s == SetArchive(arch, swap, x)
+  IN /\ arch' = s.arch /\ swap' = s.swap /\ UNCHANGED <<mem, archs>> /\ Finish(Ok("assign", [x |-> x]))
 Drop ==      \* archived(True) (may raise); self.archive = null_archive()
   LET r == ArchivedOn(arch, swap)
       s == SetArchive(r.arch, r.swap, 0)
@@ -143,6 +146,7 @@ Next ==
      \/ "arch_on" \in OPS /\ ArchOn
      \/ "arch_off" \in OPS /\ ArchOff
      \/ "open" \in OPS /\ \E x \in 1..NA : Open(x)
+     \/ "assign" \in OPS /\ \E x \in 0..NA : Assign(x)
      \/ "drop" \in OPS /\ Drop
      \/ "archived" \in OPS /\ Archived
 
